@@ -165,7 +165,8 @@ class Report:
         if self.broken:
             for b in self.broken:
                 print('ANALYSIS-BROKEN property=%s %s' % (self.prop, b))
-            return 2
+            if not new:
+                return 2
         print('%s %s: %d obligations over %d rules, %d held, %d violated (%d known findings), %.1fs'
               % (self.prop, self.tier, len(self.obls), len(self.rules), len(held), len(viol), len(viol) - len(new), wall))
         return 1 if new else 0
